@@ -49,6 +49,15 @@ Theorem C07_invcdf_generic_regular : forall (F : Q -> Q) (bl bh : Q), (forall a 
 Proof. exact invcdf_generic_regular. Qed.
 Print Assumptions C07_invcdf_generic_regular.
 
+(* the value RETURNED BY THE ALGORITHM (same fuel, same number of halvings) is non-decreasing in y —
+   for every F whatsoever, monotone or not *)
+Theorem C07_invcdf_generic_monotone_in_y : forall (F : Q -> Q) (bl bh : Q) fuel k y1 y2 r1 r2,
+  0 < y1 -> y1 <= y2 -> y2 < 1 ->
+  invcdf_generic F bl bh fuel k y1 = IVal (XFin r1) -> invcdf_generic F bl bh fuel k y2 = IVal (XFin r2) ->
+  r1 <= r2.
+Proof. exact invcdf_generic_monotone_in_y. Qed.
+Print Assumptions C07_invcdf_generic_monotone_in_y.
+
 (* ----- special values (dist.go:123-144) ----- *)
 Theorem C07_invcdf_special_values : forall (F : Q -> Q) (bl bh : Q) fuel k y,
   ((y < 0 \/ 1 < y) -> invcdf_generic F bl bh fuel k y = IVal XNaN) /\
